@@ -13,6 +13,7 @@ import IgrisModel.C17.Lemmas
 import IgrisModel.C17.RefLemmas
 import IgrisModel.C17.LenLemmas
 import IgrisModel.C17.R3Lemmas
+import IgrisModel.C17.Gf2Lemmas
 namespace Igris.C17
 open Igris.Proto
 
@@ -530,6 +531,61 @@ theorem crc32Table_generated :
 function-local static): `igris_crc32` of the word `k` from seed 0 is entry `k` -/
 theorem crc32Table_readout :
     (List.range 16).map (fun k => crc32 [BitVec.ofNat 8 k, 0, 0, 0] 4 0#32) = crc32Table.map some := by
+  decide +kernel
+
+
+/-! ## every routine against the mathematical definition: the remainder of
+`M(X)·X^w + init(X)·X^|M|` modulo the generator polynomial over GF(2)
+(`Gf2.lean`: schoolbook long division on coefficient lists, no shift register,
+no table).  `toBits` = the register as coefficients, most significant bit
+first; `toBitsRev` = bit 0 first (reflected CRC). -/
+
+/-- `igris_strmcrc8`: generator X^8+X^5+X^4+1, bytes most significant bit first -/
+theorem strmcrc8_eq_gf2 (seed : BitVec 8) (data : List Byte) :
+    toBits (strmcrc8 seed data) = crcPoly g8_31 (toBits seed) (data.flatMap bitsMsbFirst) := by
+  rw [strmcrc8_eq_ref]; exact refMsb_eq_crcPoly (n := 7) 0x31#8 seed data
+
+/-- `igris_crc8` (Dallas/Maxim): the same generator X^8+X^5+X^4+1, reflected:
+bytes least significant bit first, the register read from bit 0 -/
+theorem crc8_eq_gf2 (data : List Byte) (seed : BitVec 8) :
+    toBitsRev (crc8 data seed) = crcPoly g8_31 (toBitsRev seed) (data.flatMap bitsLsbFirst) := by
+  rw [crc8_eq_ref]; exact refLsb_eq_crcPoly (n := 7) 0x8C#8 seed data
+
+theorem crc8Table_eq_gf2 (data : List Byte) (seed : BitVec 8) :
+    toBitsRev (crc8Table data seed) = crcPoly g8_31 (toBitsRev seed) (data.flatMap bitsLsbFirst) := by
+  rw [crc8_table_eq_serial, crc8_eq_gf2]
+
+/-- `igris_crc16`: generator X^16+X^12+X^5+1 (CCITT), bytes most significant bit first -/
+theorem crc16_eq_gf2 (data : List Byte) (seed : BitVec 16) :
+    toBits (crc16 data seed) = crcPoly g16_1021 (toBits seed) (data.flatMap bitsMsbFirst) := by
+  rw [crc16_eq_ref]; exact refMsb_eq_crcPoly (n := 15) 0x1021#16 seed data
+
+/-- `igris_mmc_crc7`: the returned byte is a 7-bit value whose bits are the
+remainder modulo X^7+X^3+1 (initial register 0) -/
+theorem mmcCrc7_eq_gf2 (data : List Byte) :
+    ∃ r : BitVec 7, mmcCrc7 data = r.zeroExtend 8 ∧
+      toBits r = crcPoly g7_09 (List.replicate 7 false) (data.flatMap bitsMsbFirst) :=
+  ⟨refMsb 7 0x09#7 0#7 data, mmcCrc7_eq_crc7 data, refMsb_eq_crcPoly (n := 6) 0x09#7 0#7 data⟩
+
+/-- `igris_crc32` on an exactly sized buffer: generator X^32+X^26+…+1
+(0x04C11DB7), the message taken in the routine's word order (`crc32BitOrder`) -/
+theorem crc32_eq_gf2 (data : List Byte) (seed : BitVec 32) :
+    (crc32 data data.length seed).map toBits =
+      some (crcPoly g32_04C11DB7 (toBits seed) ((crc32BitOrder data).flatMap bitsMsbFirst)) := by
+  rw [crc32_eq_ref, Option.map_some]
+  exact congrArg some (refMsb_eq_crcPoly (n := 31) 0x04C11DB7#32 seed (crc32BitOrder data))
+
+/-- anchors for the polynomial definition itself (no register, no routine
+involved): catalogue check values of "123456789" by long division —
+CRC-16/XMODEM 0x31C3, CRC-8/MAXIM-DOW 0xA1 (reflected), CRC-7/MMC 0x75,
+CRC-8/NRSC-5 0xF7 (init 0xFF), CRC-32/MPEG-2 0x0376E6E7 (init 0xFFFFFFFF) -/
+theorem gf2_check_values :
+    let m9 : List Byte := [0x31, 0x32, 0x33, 0x34, 0x35, 0x36, 0x37, 0x38, 0x39]
+    crcPoly g16_1021 (List.replicate 16 false) (m9.flatMap bitsMsbFirst) = toBits 0x31C3#16 ∧
+    crcPoly g8_31 (List.replicate 8 false) (m9.flatMap bitsLsbFirst) = toBitsRev 0xA1#8 ∧
+    crcPoly g7_09 (List.replicate 7 false) (m9.flatMap bitsMsbFirst) = toBits 0x75#7 ∧
+    crcPoly g8_31 (List.replicate 8 true) (m9.flatMap bitsMsbFirst) = toBits 0xF7#8 ∧
+    crcPoly g32_04C11DB7 (List.replicate 32 true) (m9.flatMap bitsMsbFirst) = toBits 0x0376E6E7#32 := by
   decide +kernel
 
 end Igris.C17
